@@ -1,4 +1,5 @@
 import TantivyModel.Model.Merge
+import TantivyModel.Gen.MergeGuards
 /-!
 # Index sorting (C17)
 
@@ -133,6 +134,12 @@ field): stack iff the value ranges are disjunct in reader order and no reader ha
 without value -/
 def stackDecision (desc : Bool) (cs : List SegCol) : Bool :=
   disjunct desc (cs.map (·.stats)) && !(cs.any fun c => hasLiveNulls c.card c.keys c.alive)
+
+/-- the decision as far as the current source is known to have the mirrored shape (guards
+extracted into `Gen/MergeGuards`): `none` = the scan or the decision was edited, no prediction -/
+def stackDecisionG (desc : Bool) (cs : List SegCol) : Option Bool :=
+  if Gen.LIVE_NULLS_SCAN_SHAPE = 1 ∧ Gen.STACK_DECISION_SHAPE = 1 then some (stackDecision desc cs)
+  else none
 
 /-- what the columnar format guarantees about a column of the given cardinality: `Full` = every
 row has a value; `Optional` = some row has none (otherwise the writer would have chosen `Full`);
